@@ -107,6 +107,17 @@ def run(ctx):
         for a, b in rng.sample(list(itertools.product(pool, pool)), 60 if quick else 300):
             progs.append("[%s, %s] elem %s %s" % (a, a, b, w))
             progs.append("%s [%s, %s] elem %s" % (b, a, a, w))
+    # ... systematically within each family (where the words do real work): both operand orders,
+    # every pair, the positioned operand being the 2nd result of `elem` (position 1)
+    for fam, words in ((STRS, ["add", "?find", "?starts", "?ends", "?eq", "swap", "over"]),
+                       (SEQS, ["add", "?find", "?starts", "?ends", "?eq", "swap", "over"]),
+                       (INTS, ["add", "sub", "mul", "div", "mod", "?eq", "?lt"])):
+        for w in words:
+            for a, b in itertools.product(fam, fam):
+                progs.append("[0, %s] elem ?1 %s %s" % (a, b, w))
+                progs.append("%s [0, %s] elem ?1 %s" % (a, b, w))
+                if not quick:
+                    progs.append("[0, %s] elem ?1 [0, 0, %s] elem ?2 %s" % (a, b, w))
     progs = list(dict.fromkeys(progs))
     stats = {"evaluations": 0, "disagreements": 0, "results_hist": {}, "nontrivial": set()}
     for k in range(0, len(progs), 3000):
